@@ -86,6 +86,27 @@ pub fn ra_wrap_day(date: NaiveDate, gmt: f64) -> bool {
     (p > 350.0 && c < 10.0) || (c > 350.0 && n < 10.0)
 }
 
+/// GMT offset g in [g_lo, g_hi] at which E's solar right ascension at the local midnight of `date` crosses 360 -> 0
+/// (None if it does not cross inside the interval). Used to aim workloads at the library's RA-wrap handling.
+pub fn ra_wrap_gmt(date: NaiveDate, g_lo: f64, g_hi: f64) -> Option<f64> {
+    let f = |g: f64| norm180(eph(jd_local_midnight(date, g)).ra);
+    let (mut a, mut b) = (g_lo, g_hi);
+    let (fa, fb) = (f(a), f(b));
+    // RA grows with time, i.e. falls with g; a crossing needs opposite signs and small magnitudes (not the 180 jump)
+    if !(fa > 0.0 && fb < 0.0 && fa < 5.0 && fb > -5.0) {
+        return None;
+    }
+    for _ in 0..60 {
+        let m = 0.5 * (a + b);
+        if f(m) > 0.0 {
+            a = m;
+        } else {
+            b = m;
+        }
+    }
+    Some(0.5 * (a + b))
+}
+
 // ---------------------------------------------------------------- T: tabular Islamic calendar
 /// floor division
 fn fdiv(a: i64, b: i64) -> i64 {
